@@ -359,6 +359,6 @@ def arms(tier):
 
 
 MIN_CLASS_COUNTS = {"name-or-module-tag:unimported-module:empty-value": 300, "object-construction-tag:dispatched": 2000}
-REQUIRED_CLASSES = ["object-construction-tag:dispatched", "name-tag:dispatched", "tag:object/apply@root", "tag:object@key",
+REQUIRED_CLASSES = ["name-identity:mutable-container", "name-identity:existing-attribute", "object-construction-tag:dispatched", "name-tag:dispatched", "tag:object/apply@root", "tag:object@key",
                     "tag:module@value", "tag:name@item", "outcome:loaded", "outcome:YAMLError", "preloaded-with-UnsafeLoader",
                     "static:tables"]
